@@ -236,6 +236,9 @@ func genRdCases(c *Ctx) []json.RawMessage {
 	var out []json.RawMessage
 	add := func(cs RdCase) { out = append(out, mustJSON(cs)) }
 	sizes := []int{0, 1, 4096, 4097, 9000}
+	if c.Thorough() {
+		sizes = []int{0, 1, 4095, 4096, 4097, 8192, 9000}
+	}
 	var alpha []RdOp
 	for _, op := range []string{"next", "peek", "skip", "readbinary"} {
 		for _, n := range sizes {
@@ -300,6 +303,32 @@ func genRdCases(c *Ctx) []json.RawMessage {
 								continue
 							}
 							add(RdCase{Fl: "io", S: S, Fk: fk, Wd: wd, Seed: seed % 251, Chunks: pol, Ops: []RdOp{small[i], small[j], {"next", 1}}})
+						}
+					}
+				}
+			}
+		}
+	}
+	// growth with a non-zero read index: consume k, then request n at / around the doubled capacities
+	// (4096 * 2^j) so that the new buffer's room (cap - ri) is exactly, just above and just below n
+	for _, k := range []int{1, 7, 100, 4095, 4096, 5000} {
+		for _, base := range []int{4096, 8192, 16384, 32768} {
+			for _, d := range []int{-1, 0, 1} {
+				for _, ko := range []string{"next", "skip", "readbinary"} {
+					for _, op := range []string{"next", "peek", "skip", "readbinary"} {
+						for _, n := range []int{base + d, base - k + d} {
+							if n <= 0 {
+								continue
+							}
+							seed++
+							if !c.Thorough() && seed%3 != 0 {
+								continue
+							}
+							add(RdCase{Fl: "io", S: 80000, Fk: "EOF", Wd: seed%2 == 0, Seed: seed % 251, Chunks: [][]int{{-1}, {4096}, {1000}}[seed%3],
+								Ops: []RdOp{{ko, k}, {op, n}, {"next", 1}, {"release", 0}, {"next", 10}}})
+							if seed%5 == 0 {
+								add(RdCase{Fl: "bytes", S: 6000, Cap: 6000 + seed%3, Fk: "EOF", Seed: seed % 251, Ops: []RdOp{{ko, k}, {op, n}, {"next", 1}}})
+							}
 						}
 					}
 				}
@@ -385,6 +414,8 @@ func genRdCases(c *Ctx) []json.RawMessage {
 				op.N = rng.Intn(20000)
 			case 4:
 				op.N = rng.Intn(300)
+			case 5:
+				op.N = 4096<<uint(rng.Intn(3)) - rng.Intn(200) // at / just below a doubled capacity
 			default:
 				op.N = rng.Intn(3000)
 			}
